@@ -51,7 +51,7 @@ func (propC18) Decode(raw []byte) (interface{}, error) {
 }
 
 var c18ListFilters = []string{"sort", "reverse", "slice(0, 2)", "slice(1, 2)", "slice(1)", "merge([9, 8])", "merge(il)", "merge(l1)", "default([])", "first", "last", "join(',')", "length", "json_encode", "slice(0, 3)|sort", "sort|reverse", "slice(1, 3)|reverse", "merge([1])|sort", "reverse|slice(0, 2)|sort", "sort|slice(0, 2)|merge([0])"}
-var c18MapFilters = []string{"merge({'k1': 'X', 'zz': 1})", "keys", "keys|sort", "keys|reverse", "first", "json_encode", "default({})", "length", "merge(m1)", "merge({'k1': 'X'})|keys|sort", "join(',')", "keys|slice(0, 1)"}
+var c18MapFilters = []string{"default({})|merge({'zz': 1})", "default({'q': 1})|merge({'k1': 'Y'})|keys", "merge({'k1': 'X', 'zz': 1})", "keys", "keys|sort", "keys|reverse", "first", "json_encode", "default({})", "length", "merge(m1)", "merge({'k1': 'X'})|keys|sort", "join(',')", "keys|slice(0, 1)"}
 
 // seqFilters are the list filters that keep a list a list (safe to chain)
 var c18SeqFilters = []string{"sort", "reverse", "slice(0, 2)", "slice(1)", "slice(1, 3)"}
@@ -90,7 +90,7 @@ func c18Template(r *R) string {
 	n := r.Range(2, 7)
 	dump := func(e string) string { return "\x01{{ " + e + "|json_encode }}\x02" }
 	for i := 0; i < n; i++ {
-		switch r.N(13) {
+		switch r.N(16) {
 		case 0, 1:
 			l, f := listAndFilter(r)
 			sb.WriteString("{{ " + l + "|" + f + "|json_encode }};")
@@ -127,6 +127,12 @@ func c18Template(r *R) string {
 				l, f = listAndFilter(r)
 			}
 			sb.WriteString("{{ " + l + "|" + f + "|" + pick(r, c18SeqFilters) + "|json_encode }};")
+		case 13:
+			// an element of the caller's list of maps flows through a filter chain that ends in a writer
+			sb.WriteString("{{ l2|" + pick(r, []string{"first", "last"}) + "|merge({'id': 99, 'extra': 'e'})|json_encode }};{% set row = l2|first %}{% set row2 = row|merge({'n': 'changed'}) %}{{ l2|json_encode }};")
+		case 14:
+			// nested interface{}-keyed map (as YAML decoders produce) reached by dot access and by subscript
+			sb.WriteString("{{ cfg.db.host }}{{ cfg['db']['port'] }}{{ cfg.db|" + pick(r, []string{"keys|json_encode", "json_encode", "merge({'x': 1})|keys|json_encode", "length"}) + " }}{{ cfg.list|first }};")
 		default:
 			sb.WriteString("{% do " + "n1 + 1 %}{{ pp.Inner.Name }}{{ pp.Greeting }}{{ l2|first|json_encode }};")
 		}
@@ -145,6 +151,9 @@ func (propC18) Gen(seed uint64, ex map[string]bool) interface{} {
 	ctx.M = append(ctx.M,
 		KV{"nums", &Val{T: "list", L: []*Val{i(5), i(3), i(9), i(1), i(7)}}},
 		KV{"si", &Val{T: "simap", M: []KV{{"one", i(1)}, {"two", i(2)}, {"three", i(3)}}}},
+		KV{"cfg", &Val{T: "map", M: []KV{
+			{"db", &Val{T: "anymap", M: []KV{{"host", s("h")}, {"port", i(5432)}, {"opts", &Val{T: "anymap", M: []KV{{"ssl", &Val{T: "bool", B: true}}}}}}}},
+			{"list", &Val{T: "list", L: []*Val{s("a"), s("b")}}}}}},
 	)
 	for k := range ctx.M {
 		if ctx.M[k].K == "m1" {
